@@ -1,0 +1,24 @@
+//! Verification hook (only with `--cfg paseto_verif`): lets a test harness force the
+//! derived AES-CTR counter block so that counter carry can be exercised.
+extern crate std;
+
+use core::cell::Cell;
+
+use generic_array::GenericArray;
+use generic_array::typenum::U16;
+
+std::thread_local! {
+    static IV: Cell<Option<[u8; 16]>> = const { Cell::new(None) };
+}
+
+/// Force (or stop forcing) the derived counter block on this thread.
+pub fn set_iv(iv: Option<[u8; 16]>) {
+    IV.with(|c| c.set(iv));
+}
+
+pub(crate) fn iv_override(n2: GenericArray<u8, U16>) -> GenericArray<u8, U16> {
+    match IV.with(|c| c.get()) {
+        Some(iv) => iv.into(),
+        None => n2,
+    }
+}
